@@ -56,6 +56,18 @@ pub async fn reads_cmd(rep: &mut Report, table: &str, rf: u8) {
                 }
             }
         }
+        // a sibling partition of the same bucket, fully confirmed and longer than the history: a stream read addressed to
+        // it must not reveal what lies above the history partition's own watermark
+        let other = 1 - p;
+        let okey = key_for_partition(other, 9_000 + ri as u128);
+        let mut filler: Vec<Ev> = vec![];
+        let mut overs = Default::default();
+        for _ in 0..(evs.len() + 2) {
+            match append(&db, other, okey, &["z"], quorum, &mut overs).await {
+                Ok(e) => filler.extend(e),
+                Err(e) => rep.violation("c07:harness-setup", json!({"problem": e}), json!({"row": row})),
+            }
+        }
         // mirror of Gating!W, validated against the table
         let w = evs.iter().take_while(|e| e.count >= quorum).count() as u64;
         assert_eq!(w, row["w"].as_u64().unwrap(), "harness mirror of Gating!W disagrees with the table for {row}");
@@ -86,6 +98,16 @@ pub async fn reads_cmd(rep: &mut Report, table: &str, rf: u8) {
                 if let Err(e) = cluster.ask(msg).await {
                     rep.violation("c07:harness-setup", json!({"problem": format!("ConfirmTransaction failed: {e}")}), json!({"row": row}));
                 }
+            }
+            for f in &filler {
+                let msg = sierradb_cluster::write::confirm::ConfirmTransaction {
+                    partition_id: other,
+                    transaction_id: f.tx,
+                    event_ids: [f.id].into_iter().collect(),
+                    confirmation_versions: [f.seq + 1].into_iter().collect(),
+                    confirmation_count: quorum,
+                };
+                let _ = cluster.ask(msg).await;
             }
             // the watermark update is told, not asked: let it settle
             tokio::time::sleep(std::time::Duration::from_millis(15)).await;
@@ -152,6 +174,22 @@ pub async fn reads_cmd(rep: &mut Report, table: &str, rf: u8) {
                             Err(e) => problems.push(("read-stream-error".into(), format!("ReadStream({s}, start {start}, end {end:?}) failed: {e}"))),
                         }
                     }
+                }
+            }
+            // the same stream addressed through the sibling partition (same bucket, other watermark)
+            for count in [1u64, 100] {
+                queries += 1;
+                if let Ok(r) = cluster.ask(ReadStream { partition_id: other, stream_id: StreamId::new(s.to_string()).unwrap(), start_version: 0, end_version: None, count }).await {
+                    if let Some(bad) = r.events.iter().find(|x| x.partition_id == p && x.partition_sequence >= w) {
+                        problems.push(("read-stream-sibling-partition".into(), format!("ReadStream({s}) addressed to partition {other} returned partition {p} sequence {} (version {}), above that partition's watermark {w}", bad.partition_sequence, bad.stream_version)));
+                    }
+                }
+            }
+            queries += 1;
+            if let Ok(Some(v)) = cluster.ask(GetStreamVersion { partition_id: other, stream_id: StreamId::new(s.to_string()).unwrap() }).await {
+                let visible_max = sevs.iter().filter(|e| e.seq < w).map(|e| e.ver as i64).max().unwrap_or(-1);
+                if v as i64 > visible_max {
+                    problems.push(("stream-version-sibling-partition".into(), format!("GetStreamVersion({s}) addressed to partition {other} = {v}, highest visible version {visible_max} (watermark {w} of partition {p})")));
                 }
             }
             queries += 1;
